@@ -105,6 +105,22 @@ Proof.
       assert (uid_eqb (sp_id p) id = false) as -> by (apply uid_eqb_neq; congruence). reflexivity.
 Qed.
 
+(* A request or an attempt that cannot be encoded, at ANY position of the tree, makes Create fail on
+   ANY container, with nothing written - at every fault stage. *)
+Lemma c14_create_unencodable_cosmos_lemma stage p (c : cdb) a :
+  In a (pln_actions p) ->
+  (enc_req (sa_req a) = None \/ exists x, In x (sa_atts a) /\ enc_att x = None) ->
+  cz_create_stage stage p c = (c, false).
+Proof.
+  intros Ha Hbad. unfold CosmosModel.create_stage. destruct c as [d s].
+  destruct (uid_nil (sp_id p)); [reflexivity|]. destruct (CosmosModel.exists_plan (sp_id p) d); [reflexivity|].
+  destruct (planToItems enc_req enc_att p) as [items|] eqn:E; [|reflexivity]. exfalso.
+  apply planToItems_some in E. unfold Spec.pln_encodes in E. rewrite forallb_forall in E. specialize (E a Ha).
+  unfold Spec.act_encodes in E. apply andb_true_iff in E as [E1 E2]. destruct Hbad as [Hb | (x & Hx & Hb)].
+  - now rewrite Hb in E1.
+  - unfold Spec.atts_encode in E2. rewrite forallb_forall in E2. specialize (E2 x Hx). now rewrite Hb in E2.
+Qed.
+
 (* The plan batch and the search batch are not atomic together: if the search batch fails, Create
    returns an error although the plan is completely stored - readable, with no search entry.
    (cosmosdb's Create is all-or-nothing for the plan partition only.) *)
